@@ -259,6 +259,7 @@ async fn deadline_case(server: SocketAddr, timeout: u64, b: Behaviour, direct: b
 }
 
 pub async fn run(cli: &Cli, report: &mut Report) {
+    let _ = &cli.prop;
     let thorough = cli.tier == Tier::Thorough;
     let lateness = tcp::Lateness::start();
     let specs: Vec<Spec> = {
@@ -291,8 +292,10 @@ pub async fn run(cli: &Cli, report: &mut Report) {
             return;
         }
         let m = spec.max_packet_length;
+        // (C02 mode: only the cookie cases)
+        let cookies_only = cli.prop == "C02";
         // max+1, a frame that still fits any small receive buffer, and a much larger one
-        for declared in [m, m + 1, m + 12, 10 * m] {
+        for declared in if cookies_only { vec![] } else { vec![m, m + 1, m + 12, 10 * m] } {
             futures.push(Box::pin(frame_case(addr, m, declared)));
         }
         let ages: Vec<i64> = if spec.expiry <= 5 { vec![0, 30, 3600] } else if spec.expiry <= 60 { vec![0, 30, 3600] } else { vec![0, 30, 7200] };
@@ -328,7 +331,7 @@ pub async fn run(cli: &Cli, report: &mut Report) {
             behaviours.push(Behaviour::StopAfter(k));
         }
         // the long-deadline listener only measures close times in the thorough tier
-        let reps = if thorough { 4 } else if spec.timeout > 4 { 0 } else { 1 };
+        let reps = if cookies_only { 0 } else if thorough { 4 } else if spec.timeout > 4 { 0 } else { 1 };
         for _ in 0..reps {
             for b in &behaviours {
                 futures.push(Box::pin(deadline_case(addr, spec.timeout, b.clone(), false)));
@@ -337,7 +340,7 @@ pub async fn run(cli: &Cli, report: &mut Report) {
     }
     // a backend that hangs: Listener directly with a discovery that never completes; the client
     // does everything right (echoes Keep Alives) and must still be cut off at the deadline
-    for timeout in if thorough { vec![2u64, 18] } else { vec![2u64] } {
+    for timeout in if cli.prop == "C02" { vec![] } else if thorough { vec![2u64, 18] } else { vec![2u64] } {
         let l = start_direct(DirectSpec { timeout: Duration::from_secs(timeout), never_discovers: true, ..Default::default() }).await;
         futures.push(Box::pin(deadline_case(l.addr, timeout, Behaviour::StopAfter(99), true)));
         std::mem::forget(l);
